@@ -77,6 +77,20 @@ def cases(tier, rng):
                 ops += ["recv"] * len(ms)
                 out.append("z%d sock %s / %s" % (k, t, " / ".join(ops)))
                 k += 1
+    # more than a MiB through one socket, every other recv abandoned after a single poll (which may already hold a message):
+    # every message is still returned exactly once, in order
+    for t in ("PULL", "DEALER", "ROUTER", "SUB"):
+        nmsg, size = 20, 60000
+        ops = ["attach a " + scen.PEER[t]]
+        for i in range(nmsg):
+            ops.append("feed a " + W.tok(W.msg([b"%02d" % i + b"z" * size])))
+        for variant in (0, 1):
+            o2 = list(ops)
+            for i in range(nmsg):
+                o2 += ["recvp 1"] if variant == 0 else (["recvp 1", "recv"] if i % 2 == 0 else ["recvp 2"])
+            o2 += ["recv"] * 3
+            out.append("b%d sock %s / %s" % (k, t, " / ".join(o2)))
+            k += 1
     # REP: a request has been returned (a reply is owed); a further recv is started, polled and abandoned: the protocol
     # state is as if that call had not been made - the reply still goes out, with the request's envelope
     for pre, pt in (([], "REQ"), ([b"rid"], "DEALER"), ([b"r1", b"r" * 255], "DEALER")):
@@ -114,6 +128,13 @@ def judge(line, obs, orc):
     kind = line.split()[0][0]
     if "r=lost-wakeup" in obs:
         return "a recv parked after an abandoned recv was never woken although the bytes of a complete message had arrived (socket unusable for a task awaiting it)"
+    if kind == "b":
+        got = [tk.split("=ok:", 1)[1] for op, tk in po if op[0] in ("recv", "recvp") and tk and "=ok:" in tk]
+        got = [g.split(";")[-1][:4] for g in got]
+        want = [(b"%02d" % i).hex() for i in range(20)]
+        if got != want:
+            return "messages returned around abandoned recv calls (20 x 60000 bytes): %s, expected each once in order" % got
+        return None
     if kind == "w":
         feed = W.untok([op for op, tk in po if op[0] == "feed"][0][2])
         env = feed[: len(feed) - len(W.msg([b"ask"]))]
@@ -166,6 +187,10 @@ def judge(line, obs, orc):
         t2, po2 = S.pair_ops_obs(line, obs)
         return c05.sock_judge(line.replace("recvp", "recv"), " ".join(tk for tk in toks))
     return None
+
+
+def compare_filter(line):
+    return not line.startswith("b")      # (large payloads: the extracted model is quadratic in the stream length)
 
 
 def model_cases(case_lines):
